@@ -165,7 +165,7 @@ class Prop(PropBase):
                 with dada.open(tmpl, "ws", time=t0, sample_rate=rate, samples_per_frame=spec["spf"], npol=a, nchan=b,
                                complex_data=cplx, bps=8, squeeze=False) as fw:
                     fw.write(data)
-                paths = sorted(str(p) for p in d.glob("f.*.dada"))
+                paths = self._renumber(sorted(str(p) for p in d.glob("f.*.dada")))
                 if len(paths) == 1:
                     paths = paths[0]
                 info["open_kwargs"] = {"squeeze": bool(spec.get("squeeze", False))}
@@ -175,7 +175,7 @@ class Prop(PropBase):
                                                  fd_poln=spec["pol"], sideband=not spec["lsb"])
                 with guppi.open(str(d / "g.{file_nr:02d}.raw"), "ws", frames_per_file=spec["fpf"], header0=h, squeeze=False) as fw:
                     fw.write(data)
-                paths = sorted(str(p) for p in d.glob("g.*.raw"))
+                paths = self._renumber(sorted(str(p) for p in d.glob("g.*.raw")))
                 info["open_kwargs"] = {"format": "guppi", "squeeze": False}
                 info["meta"] = {"center_freq": F(spec["obsfreq"]) * 10**6, "pol_type": {"LIN": "linear", "CIRC": "circular"}[spec["pol"]],
                                 "freq_align": "center", "chan_bw": F(spec["rate_mhz"]) * 10**6}
@@ -215,6 +215,18 @@ class Prop(PropBase):
             assert np.array_equal(info["written"].reshape(info["F"].shape), info["F"]), "baseband did not read back what it wrote"
         self._files[key] = info
         return info
+
+    @staticmethod
+    def _renumber(paths):
+        """file sets are handed to the readers as lists in time order; name them scan.8, scan.9, scan.10, ... so that the
+        order of the list is NOT the lexicographic order of the names"""
+        import os
+        out = []
+        for i, p in enumerate(paths):
+            q = os.path.join(os.path.dirname(p), f"scan.{8 + i}" + os.path.splitext(p)[1])
+            os.replace(p, q)
+            out.append(q)
+        return out
 
     def _reader(self, spec, info):
         R, pb, u = self.R, self.pb, self.u
